@@ -227,6 +227,7 @@ const c20DupMarker = "\x00dup:"
 type c20Render struct {
 	truncateAt float64 // fraction of the rendering to keep, <0: keep all
 	noise      bool
+	lex        c20Lex // lexical operators (c20lex.go)
 }
 
 // c20Applied records, per mutation, the path of the node it was applied to (node indices are
@@ -252,6 +253,9 @@ func c20Apply(root any, m c20Mut, idx int, dir string, r *c20Render) any {
 		if s == "schemas" || s == "schema" {
 			underSchemas = true
 		}
+	}
+	if c20LexIs(m.Op) {
+		return c20LexApply(root, m.Op, n.path, len(c20Applied), &r.lex)
 	}
 	if strings.HasPrefix(m.Op, "schema_") {
 		// keyword injections go to the (index mod count)-th schema object of the document
@@ -546,12 +550,17 @@ func c20Run(c *Case) []any {
 	if err != nil {
 		panic("harness: c20 render: " + err.Error())
 	}
-	data = []byte(strings.ReplaceAll(string(data), `"\u0000dup:`, `"`))
 	if tc.Yaml {
+		// (the duplicate of a key survives the conversion under its marked name and gets its real name in the YAML text)
 		if y, err := yaml.JSONToYAML(data); err == nil {
-			data = y
+			data = []byte(strings.ReplaceAll(string(y), `"\0dup:`, `"`))
+		} else {
+			data = []byte(strings.ReplaceAll(string(data), `"\u0000dup:`, `"`))
 		}
+	} else {
+		data = []byte(strings.ReplaceAll(string(data), `"\u0000dup:`, `"`))
 	}
+	data = c20LexRender(data, tc.Yaml, &r.lex)
 	if r.truncateAt >= 0 {
 		data = data[:int(float64(len(data))*r.truncateAt)]
 	}
